@@ -1307,7 +1307,10 @@ class C14(vlib.Driver):
         return case["fam"]
 
     def neighbours(self, case, rng):
-        """same call with other value / draw patterns (a tie can hide a wrong branch from the oracle)"""
+        """the case itself first (a K disagreement on an input whose oracle failure is a listed known finding is
+        explained by that finding: the model describes the repaired semantics), then the same call with other value /
+        draw patterns (a tie can hide a wrong branch from the oracle)"""
+        yield case
         if case["fam"] == "dqn":
             n = case["n"]
             ms = case["masks"] if case["masks"] is not None else [[1] * n] * len(case["coins"])
